@@ -1,6 +1,7 @@
 package main
 
 import (
+	"go/constant"
 	"fmt"
 	"sort"
 	"strings"
@@ -141,7 +142,7 @@ func init() {
 		p := c.P
 		c.Explain = "Structural plumbing of the history encodings, decided on SSA + call graph: (sentinel) every caller of a function that may return the 'no log entry — consult the head/zero' sentinels (deprecatedstate.ErrCheckHeadState, state.ErrNoHistoryValue) classifies it; " +
 			"(history-pairing) every history bucket × state-diff section that Update logs is un-logged by Revert; (key-shape) history writers and readers build keys from the same bucket, the same operand order and an 8-byte big-endian block suffix; " +
-			"(every-entry) each history log/un-log call runs for every entry of the diff section it ranges over (only iteration, error checks and flag parameters may dominate it); (gates) historical views pass the retention gate before a reader is built and consult the deployment height before answering. Not decided: the off-by-one semantics of valueAt, i.e. that the value returned is the value as of block n."
+			"(every-entry) each history log/un-log call runs for every entry of the diff section it ranges over (only iteration, error checks and flag parameters may dominate it); (bounded-iterator) every iterator opened on a key prefix is bounded to that prefix (withUpperBound = true) or the loop re-checks bytes.HasPrefix on each key — an unbounded seek lands on the neighbouring key's history when the queried key has no later entry; (gates) historical views pass the retention gate before a reader is built and consult the deployment height before answering. Not decided: the off-by-one semantics of valueAt, i.e. that the value returned is the value as of block n."
 		ci := p.caps()
 		r := p.newResolver()
 		ai := p.attrIndex(r, ci)
@@ -149,6 +150,7 @@ func init() {
 		c03Pairing(c, ci, r, ai)
 		c03KeyShape(c)
 		c03Gates(c)
+		c03BoundedIterator(c)
 		// every-entry rule
 		nu := 0
 		for _, sp := range []struct {
@@ -176,7 +178,8 @@ func init() {
 		p := c.P
 		c.Explain = "Revert is the structural inverse of Store at bucket granularity, decided from resolved bucket-effect sets over the call graph: (inverse-buckets) every bucket Put by the Store closure of a backend is Deleted/DeleteRanged/re-Put by its RevertHead closure, and the running-filter window Put is paired with a Delete; " +
 			"(reverse-diff) building the reverse diff classifies the 'no log entry' sentinel (shared with C03); (root-auth) Revert authenticates the root before mutating and before success; (one-batch) the RevertHead closures write only through the batch (shared with C05); " +
-			"(in-memory-inverse) RunningEventFilter.inner/next are written only by insert/onReorg/ensureInit/UnmarshalBinary. Not decided: observational equality of the values, fork convergence."
+			"(in-memory-inverse) RunningEventFilter.inner/next are written only by insert/onReorg/ensureInit/UnmarshalBinary; (no-early-success) in the state packages and the block-content helpers no success return sits inside the body of a range loop over the entries being applied or undone — a per-entry step may skip its entry (continue) or fail, but not end the whole pass early. Not decided: observational equality of the values, fork convergence."
+		c04NoEarlySuccess(c)
 		ci := p.caps()
 		r := p.newResolver()
 		nilCfg := nilConfigTrieDB(c, "inverse-buckets")
@@ -674,4 +677,105 @@ func c04FixturePair(c *Ctx, ci *capInfo, r *resolver, nilCfg bool) {
 			c.viol("inverse-buckets", "zzVerifFixture:"+b, p.Pos(e.Pos), "fixture: bucket written but not deleted")
 		}
 	}
+}
+
+
+// rangeLoopOf: the range-loop header (go/ssa block comment rangeindex.loop / rangeiter.loop) whose body contains b, if any
+func rangeLoopOf(b *ssa.BasicBlock) *ssa.BasicBlock {
+	for d := b; d != nil; d = d.Idom() {
+		if (d.Comment == "rangeindex.loop" || d.Comment == "rangeiter.loop") && d != b {
+			// b is in the body if it is dominated by the body successor (Succs[0]) and not by the done successor
+			if len(d.Succs) == 2 && (d.Succs[0] == b || d.Succs[0].Dominates(b)) {
+				return d
+			}
+		}
+	}
+	return nil
+}
+
+// c04NoEarlySuccess: see Explain. Reviewed exceptions: function → reason.
+var earlySuccessOK = map[string]string{}
+
+func c04NoEarlySuccess(c *Ctx) {
+	p := c.P
+	n := 0
+	for _, fn := range p.sortedFuncs() {
+		pr := pkgRelOf(fn)
+		if !(pr == "core/deprecatedstate" || pr == "core/state" || pr == "blockchain/statebackend") || fn.Origin() != nil || strings.HasSuffix(p.Pos(fnPos(fn)), "_test.go") {
+			continue
+		}
+		rets := returnsOf(fn)
+		if len(rets) == 0 {
+			continue
+		}
+		hasRange := false
+		for _, b := range fn.Blocks {
+			if b.Comment == "rangeindex.loop" || b.Comment == "rangeiter.loop" {
+				hasRange = true
+			}
+		}
+		if !hasRange {
+			continue
+		}
+		res := fn.Signature.Results()
+		if res.Len() != 1 || res.At(0).Type().String() != "error" {
+			continue // functions that compute a value may legitimately return from a search loop
+		}
+		n++
+		bad := ""
+		for _, ret := range rets {
+			if !isNilConst(ret.Results[0]) {
+				continue
+			}
+			if h := rangeLoopOf(ret.Ret.Block()); h != nil {
+				bad = p.Pos(posOf(ret.Ret, fn))
+			}
+		}
+		if why, ok := earlySuccessOK[qname(fn)]; ok && bad != "" {
+			c.ok("no-early-success", qname(fn), bad, "reviewed exception: "+why)
+			continue
+		}
+		c.check(bad == "", "no-early-success", qname(fn), p.Pos(fnPos(fn)), "no `return nil` inside a per-entry range loop", "returns success from inside the loop over the entries at "+bad+": the remaining entries are never processed (e.g. a system contract that is not deployed ends the purge for all later ones)")
+	}
+	if n < 15 {
+		c.und("no-early-success", "state packages", "", fmt.Sprintf("only %d error-returning functions with range loops found", n))
+	}
+	c.needFixture("no-early-success")
+}
+
+// c03BoundedIterator: see Explain.
+func c03BoundedIterator(c *Ctx) {
+	p := c.P
+	n := 0
+	for _, fn := range p.sortedFuncs() {
+		pr := pkgRelOf(fn)
+		if pr == "db" || strings.HasPrefix(pr, "db/") && !strings.HasPrefix(pr, "db/typed") || pr == "grpc" || strings.HasPrefix(pr, "mocks") || fn.Origin() != nil || strings.HasSuffix(p.Pos(fnPos(fn)), "_test.go") {
+			continue
+		}
+		for _, s := range sitesOf(fn) {
+			if s.Method == nil || s.Method.Name() != "NewIterator" || len(s.Args()) != 2 {
+				continue
+			}
+			if isNilConst(s.Args()[0]) {
+				continue // whole-keyspace scan
+			}
+			n++
+			k, isK := s.Args()[1].(*ssa.Const)
+			bounded := isK && k.Value != nil && constant.BoolVal(k.Value)
+			if !bounded {
+				for _, g := range withAnons(rootOf(fn)) {
+					for _, t := range sitesOf(g) {
+						if t.CalleeName() == "bytes.HasPrefix" {
+							bounded = true
+						}
+					}
+				}
+			}
+			c.check(bounded, "bounded-iterator", qname(fn)+" → NewIterator", p.Pos(s.Pos()), "bounded to its prefix (or keys re-checked with bytes.HasPrefix)", "an iterator opened on a key prefix is not bounded to it and the keys it yields are not re-checked: a seek past the last entry of the queried key lands on the next key's entries")
+		}
+	}
+	if n < 8 {
+		c.und("bounded-iterator", "prefix iterators", "", fmt.Sprintf("only %d prefix iterators found", n))
+	}
+	c.needFixture("bounded-iterator")
 }
